@@ -336,6 +336,26 @@ def check_daqmx_graph(case, rec):
                 i = int(bad[0])
                 rec.violation('daqmx_graph:value', '%s element %d: scaled %r, evaluation over the raw scalers %r; graph %r' % (
                     mode, i, got[i], w[i], graph))
+                continue
+            # elementwise: every window of the scaled DAQmx channel equals the window of the scaled data
+            n = len(got)
+            if n <= 10:
+                ch = tf[g][c]
+                done = False
+                for o in range(0, n + 1):
+                    for l in [None] + list(range(0, n - o + 1)):
+                        ok, win = rec.guard('daqmx_graph:window:' + mode, lambda: np.asarray(ch.read_data(o, l)))
+                        if not ok:
+                            done = True
+                            break
+                        want_w = got[o:] if l is None else got[o:o + l]
+                        if win.tobytes() != want_w.tobytes():
+                            rec.violation('daqmx_graph:elementwise:' + mode, 'read_data(%d,%r) = %r but scaled[%d:...] = %r' % (
+                                o, l, win, o, want_w))
+                            done = True
+                            break
+                    if done:
+                        break
         finally:
             tf.close()
 
